@@ -16,7 +16,11 @@ from .utils.template_utils import FakerTemplateLibrary
 from .utils.yaml_utils import SnowfakeryDumper, hydrate
 from .row_history import RowHistory
 from .template_funcs import StandardFuncs
-from .data_gen_exceptions import DataGenSyntaxError, DataGenNameError
+from .data_gen_exceptions import (
+    DataGenSyntaxError,
+    DataGenNameError,
+    DataGenValueError,
+)
 import snowfakery  # noQA
 from snowfakery.object_rows import (
     NicknameSlot,
@@ -524,6 +528,10 @@ class RuntimeContext:
         else:
             self._plugin_context_vars = ChainMap()
         locale = self.variable_definitions().get("snowfakery_locale")
+        if isinstance(locale, (list, dict)):
+            raise DataGenValueError(
+                f"snowfakery_locale should be a locale name such as `fr_FR`, not `{locale}`"
+            )
         self.faker_template_library = self.interpreter.faker_template_library(locale)
         self.local_vars = {}
 
